@@ -41,6 +41,8 @@ static void vexit(int code);
 #include "src/pbind.c"
 #elif defined(TOOL_PLIST)
 #include "src/plist.c"
+#elif defined(TOOL_P2HEX)
+#include "src/p2hex.c"
 #endif
 #undef main
 #undef exit
@@ -119,6 +121,15 @@ void harness(void)
 #elif defined(TOOL_PLIST)
   NumFiles = 1;
   ProcessSingle(srcname);
+#elif defined(TOOL_P2HEX)
+  {
+    int sg;
+    for (sg = 0; sg < SegCount; sg++) { StartAdr[sg] = 0; StopAdr[sg] = 15; }
+    LineLen = 16; Relocate = 0; RelAdr = False; ForceSegment = SegNone; IntelMode = 0; MultiMode = 0; MinMoto = 1; Rec5 = True; SepMoto = False; AVRLen = 3;
+    DestFormat = HEXFMT; FormatOccured = 0; MaxMoto = 0; MaxIntel = 0; EntryAdrPresent = False; CFormat[0] = 0; strcpy(TargName, "t");
+    TargFile = (FILE*)(void*)&targ;
+    ProcessFile(srcname, 0);
+  }
 #endif
   WITNESS("accepted");
   WITNESS("end");
